@@ -136,3 +136,98 @@ def table_equals(atoms, table, roles, spec):
         if res is None or bool(res) != bool(want):
             return False, "row %s: code gives %s, specification %s" % (env, res, want)
     return True, None
+
+
+# --------------------------------------------------------------------------
+# existential-loop idiom:   flag = false; for x in xs { if cond(x) { flag = true; break; } }
+
+class ExistsLoop:
+    def __init__(self):
+        self.flag = None          # local index of the bool flag
+        self.flag_name = ""
+        self.iter_term = None     # what is iterated
+        self.set_paths = []       # guard lists (atom, value) under which the flag is set to true
+        self.cont_paths = []      # guard lists of paths that continue without setting
+        self.exhaustive = False   # the only other exit is exhaustion of the iterator
+        self.problems = []
+
+
+def exists_loop(body, h, flag_local=None):
+    """analyses loop `h` of `body` as an existential scan. Returns ExistsLoop (check .problems)."""
+    from .mir import Walker, const_int
+    el = ExistsLoop()
+    paths = Walker(body).walk(h, start_is_header=True)
+    inner = set(body.loops()[h])
+    for p in paths:
+        if p.outcome[0] in ("unreachable", "infeasible"):
+            continue
+        sets = [e for e in p.events if e.kind == "set" and body.ltypes.get(e.a) == "bool" and (flag_local is None or e.a == flag_local)]
+        # only the part of the path inside the loop (up to the exit) matters
+        in_loop_sets = [e for e in sets if e.blk in inner or _set_on_break_edge(body, h, p, e)]
+        guards = []
+        nxt = None
+        for e in p.events:
+            if e.blk not in inner and not _before_exit(body, h, p, e):
+                break
+            if e.kind == "guard":
+                if isinstance(e.a, tuple) and e.a[0] == "variantof" and isinstance(e.a[1], tuple) and e.a[1][0] == "next":
+                    nxt = e.b
+                    el.iter_term = e.a[1][1]
+                    continue
+                guards.append((e.a, e.b))
+        if p.outcome == ("backedge", h):
+            if in_loop_sets:
+                el.problems.append("flag written on a continuing path")
+            el.cont_paths.append(guards)
+            continue
+        # exit paths
+        if nxt == "None":
+            if in_loop_sets:
+                el.problems.append("flag written on the exhaustion path")
+            el.exhaustive = True
+            continue
+        if in_loop_sets:
+            e = in_loop_sets[-1]
+            v = const_int(e.b)
+            if v != 1:
+                el.problems.append("flag set to a non-true value")
+            if el.flag is None:
+                el.flag = e.a
+                el.flag_name = body.dbg.get(e.a, "")
+            elif el.flag != e.a:
+                el.problems.append("several flags")
+            el.set_paths.append(guards)
+        else:
+            el.problems.append("loop left early without setting the flag (%s)" % (p.outcome[0],))
+    if not el.exhaustive:
+        el.problems.append("no exhaustion exit")
+    if not el.set_paths:
+        el.problems.append("flag never set")
+    return el
+
+
+def _set_on_break_edge(body, h, p, e):
+    # blocks of a `break` arm are outside the natural loop body; they belong to the scan when they
+    # come before any other event outside the loop
+    return _before_exit(body, h, p, e)
+
+
+def _before_exit(body, h, p, e):
+    """e happens outside the natural loop but before the path reaches a block that is reachable
+    from the loop's exhaustion exit (i.e. it is on a break arm)"""
+    inner = body.loops()[h]
+    # exhaustion exit target: successor outside the loop of the block that switches on next()
+    exh = getattr(body, "_exh_reach", {}).get(h)
+    if exh is None:
+        exits = body.loop_exits(h)
+        # the exit taken on None comes from the header's switch block: take the exit whose source is
+        # closest to the header (first in block order)
+        srcs = sorted((x for x in exits if not (body.blocks[x[1]]["term"]["k"] == "unreachable" and not body.blocks[x[1]]["stmts"])),
+                      key=lambda x: x[0])
+        tgt = srcs[0][1] if srcs else None
+        enclosing = [hh for hh, blks in body.loops().items() if hh != h and h in blks]
+        exh = body.reach(tgt, stop=enclosing) if tgt is not None else set()
+        if not hasattr(body, "_exh_reach"):
+            body._exh_reach = {}
+        body._exh_reach[h] = exh
+    return e.blk not in inner and e.blk not in exh
